@@ -91,6 +91,7 @@ type api[K any] struct {
 	Keys           func() []K
 	Values         func() []int
 	Range, All     func(func(K, int) bool)
+	AllSeq         func() iter.Seq2[K, int] // the sequence value itself, to be kept and ranged later
 	RangeWithStart func(K, func(K, int) bool)
 	RangeWithRange func(K, K, func(K, int) bool)
 }
@@ -123,6 +124,7 @@ func ordAPI[K interface{ ~int | ~string | ~float64 }](s *listz.SkipList[K, int])
 			return
 		},
 		Len: s.Len, Keys: s.Keys, Values: s.Values, Range: s.Range,
+		AllSeq: s.All,
 		All: func(f func(K, int) bool) {
 			seq := s.All()
 			n := 0
@@ -161,6 +163,7 @@ func cmpAPI(s *listz.SkipListWithCmp[int, int], cmp func(a, b int) int) api[int]
 			return
 		},
 		Len: s.Len, Keys: s.Keys, Values: s.Values, Range: s.Range,
+		AllSeq: s.All,
 		All: func(f func(int, int) bool) {
 			seq := s.All()
 			n := 0
@@ -437,6 +440,7 @@ func drive[K comparable](c skipCase, r *pb.Rec, a api[K], keyOf func(int) K, les
 		return nil
 	}
 	maxLevelSeen := 0
+	heldSeq := a.AllSeq()
 	for step, o := range c.Ops {
 		installRand(a.list, rnd)
 		if o.A < 0 || o.A > c.N+1 || o.B < 0 || o.B > c.N+1 {
@@ -553,6 +557,11 @@ func drive[K comparable](c skipCase, r *pb.Rec, a api[K], keyOf func(int) K, les
 			if err := enum("All", sorted(), o.C, a.All); err != nil {
 				return fail("%v", err)
 			}
+			// a sequence value obtained before the first operation (on the empty list) is still a view of the list
+			if err := enum("All (sequence value obtained while the list was still empty)", sorted(), o.C, func(f func(K, int) bool) { heldSeq(f) }); err != nil {
+				return fail("%v", err)
+			}
+			r.ClassIf(len(model) > 0, "sequence obtained on the empty list ranged after writes")
 		case opRangeStart:
 			var want []int
 			for _, k := range sorted() {
@@ -605,7 +614,7 @@ func drive[K comparable](c skipCase, r *pb.Rec, a api[K], keyOf func(int) K, les
 
 func init() {
 	pb.Register("ordered_map", pb.Options{Base: 8000,
-		Required: []string{"Init after writes", "top level shrank", "zero value read path", "zero value after Clear read path", "clear then write", "level >= 4 reached", "level >= 17 reached", "top level 32 reached"},
+		Required: []string{"Init after writes", "top level shrank", "zero value read path", "zero value after Clear read path", "clear then write", "level >= 4 reached", "level >= 17 reached", "top level 32 reached", "sequence obtained on the empty list ranged after writes"},
 		Rule:     "operation sequences (<= 60 steps, thorough <= 200) over Set/SetNx/SetX/Remove/Clear/Get/GetNode(+Key/Value/Next/SetValue)/Head/Len/Keys/Values/Range/All/RangeWithStart/RangeWithRange with early-stop callbacks, on SkipList[int|string|float64] started from NewSkipList / zero value / zero value after Clear and SkipListWithCmp under ascending, descending and permutation-rank comparators; dense key domains with outer neighbours; tower heights injected through the list's random source (part of the case); oracle: sorted-map model compared after every step; non-trivial = a present key removed after >= 3 inserts and a range query with an absent start key"},
 		genSkip, runSkip)
 }
